@@ -1,7 +1,7 @@
 (* C12 — bank-code <-> BIC lookups agree with the bundled registry and with each other. *)
-From Schwifty Require Import Lib.Base Lib.Lit Model.Clean Model.Data Model.Bic Model.Lookup.
+From Schwifty Require Import Lib.Base Lib.Lit Model.Clean Model.Data Model.Bic Model.Bban Model.Lookup Model.Generate.
 From Schwifty Require Import Proofs.CleanFacts Proofs.LookupFacts.
-From Schwifty Require Import Gen.Env Gen.BicCfg Gen.Banks.
+From Schwifty Require Import Gen.Env Gen.IbanData Gen.BicCfg Gen.Banks.
 From Coq Require Import String.
 
 (* every non-empty BIC of the bundled registry passes the model of BIC(...) unchanged *)
@@ -55,6 +55,41 @@ Theorem C12_invertible : forall (R : banks) cc code b,
   In code (domestic_bank_codes R b) /\ bic_exists R b = true.
 Proof. exact invertible. Qed.
 
+
+(* an IBAN's bank and bic are what looking up its own bank-identifying field yields (for any registry):
+   bank = the first entry, in file order, registered under (country, field) - None when there is none;
+   bic  = BIC.from_bank_code(country, field) - None when that raises a library error (in particular: unlisted) *)
+Theorem C12_iban_bank : forall (R : banks) cc b key,
+  bban_lookup_key the_table cc b = Ok key ->
+  bban_bank the_table (bank_code_entries R) cc b
+  = Ok (match idx_get pair_eqb (cc, key) (build_index pair_eqb key_bank_code R) with
+        | Some (en :: _) => Some en
+        | _ => None
+        end).
+Proof.
+  intros R cc b key Hk. unfold bban_bank. rewrite Hk. cbn [bind]. rewrite C12_index.
+  destruct (bank_code_entries R cc key); reflexivity.
+Qed.
+
+Theorem C12_iban_bic : forall (R : banks) cc b key,
+  bban_lookup_key the_table cc b = Ok key ->
+  bban_bic the_env the_bic_cfg iso3166 the_table R cc b
+  = match from_bank_code the_env the_bic_cfg iso3166 R cc key with
+    | Ok x => Ok (Some x) | Err _ => Ok None | Crash c => Crash c
+    end.
+Proof. intros R cc b key Hk. unfold bban_bic. rewrite Hk. reflexivity. Qed.
+
+Theorem C12_iban_unlisted : forall (R : banks) cc b key,
+  bban_lookup_key the_table cc b = Ok key -> bank_code_entries R cc key = [] ->
+  bban_bank the_table (bank_code_entries R) cc b = Ok None
+  /\ bban_bic the_env the_bic_cfg iso3166 the_table R cc b = Ok None.
+Proof.
+  intros R cc b key Hk He. split.
+  - unfold bban_bank. rewrite Hk. cbn [bind]. rewrite He. reflexivity.
+  - unfold bban_bic. rewrite Hk. cbn [bind]. unfold from_bank_code, candidates. rewrite He. reflexivity.
+Qed.
+
+Print Assumptions C12_iban_bank.
 Print Assumptions C12_index.
 Print Assumptions C12_candidates.
 Print Assumptions C12_choice.
